@@ -28,6 +28,7 @@ META = {
     "assumptions": ["n_samples >= 1", "feature_subset is an iterable of keys present in the background"],
 }
 META["explanation"] += ' Also COPY (copy / pickle hooks of the imputers keep every attribute and the sharing of the storage) and the type of what the strategy field holds.'
+META["explanation"] += ' Round 5: dict(x, **sampled) needs string feature names (MERGE keys-as-keywords); Enum members as strategy values. HAZARD: constructs that do not mean what they look like, met in the analysed code (defaults evaluated once, class-level containers changed through self, dict.fromkeys with a shared mutable value, late-binding lambdas, truth value of objects that define __len__) are reported by every check.'
 MIN_INSTANCES = {"MERGE": 3, "KEYS": 3, "COUNT": 3, "NOMUT": 3, "VALUE": 3, "COPY": 3}
 
 
